@@ -11,9 +11,14 @@
   C16 (policy drain), C17 (connections), C20 (worker pool).
 -/
 import Absnfs.FsLemmas
+import Gen.Facts
 open Absnfs Absnfs.Fs
 
 namespace Props.C29
+
+/-- the tie between "the lock structures' invariants hold under every interleaving of their critical sections"
+    and the code: each handle-table operation is one critical section (regenerated from filehandle.go) -/
+theorem gen_handle_ops_atomic : Gen.handleOpsAtomic = true := by decide
 
 /-- stores at different paths commute (as maps: entry order and inode counter aside) -/
 theorem stores_commute (fs : T) (p q : Path) (e f : Entry) (h : p ≠ q) :
